@@ -90,16 +90,30 @@ def havoc_value(ex, p, v, hint):
   raise Unsupported('cannot havoc %r' % (v,))
 
 
+class OptWiden(Exception):
+  """a loop variable that is None before the loop and becomes an array / number inside it (Optional[...])"""
+  def __init__(self, name, sample, sample_path):
+    self.name, self.sample, self.sample_path = name, sample, sample_path
+
+
+class Widen(Exception):
+  def __init__(self, name):
+    self.name = name
+
+
 def same_type(ex, p, a, b, name, st):
   """type/shape stability of a loop-written variable; returns list of z3 conditions that must hold"""
   if isinstance(a, VInf) and isinstance(b, (VReal, VInf)) or isinstance(b, VInf) and isinstance(a, VReal):
     return []
-  if isinstance(a, VNone) and not isinstance(b, VNone) or isinstance(b, VNone) and not isinstance(a, VNone):
-    raise Unsupported('loop line %d: variable %s is None on one side of the back edge and %s on the other (needs an entry-case split)'
-                      % (st.lineno, name, type(b).__name__))
+  if isinstance(a, VNone) and not isinstance(b, VNone):
+    raise OptWiden(name, b, p)
+  if isinstance(b, VNone) and not isinstance(a, VNone):
+    return []            # re-set to None inside the loop while the head already covers the non-None value
   if type(a) != type(b):
-    if isinstance(a, (VInt, VReal)) and isinstance(b, (VInt, VReal)):
-      raise Unsupported('loop line %d: variable %s changes between int and float' % (st.lineno, name))
+    if isinstance(a, VInt) and isinstance(b, VReal):
+      raise Widen(name)          # python numeric tower: an int-initialised variable that the loop makes a float
+    if isinstance(a, VReal) and isinstance(b, VInt):
+      return []
     raise Unsupported('loop line %d: variable %s changes python type (%s -> %s)' % (st.lineno, name, type(a).__name__, type(b).__name__))
   if isinstance(a, VArr):
     sa, sb = p.store[a.loc], p.store[b.loc]
@@ -220,8 +234,28 @@ def loop_hook(ex, st, p, module):
         paths = ex.block(st.orelse, paths, module)
       out_paths += paths + broke
       continue
-    out_paths += one_loop(ex, st, p0, it, module, is_for, inv, target, ordinal)
+    out_paths += loop_with_optionals(ex, st, p0, it, module, is_for, inv, target, ordinal, frozenset())
   return out_paths
+
+
+def loop_with_optionals(ex, st, p0, it, module, is_for, inv, target, ordinal, optional):
+  try:
+    return one_loop(ex, st, p0.fork(), it, module, is_for, inv, target, ordinal, optional)
+  except OptWiden as w:
+    if w.name in optional or len(optional) > 3:
+      raise Unsupported('loop line %d: optional variable %s does not stabilise' % (st.lineno, w.name))
+    opt2 = optional | {w.name}
+    # variant 1: the variable is still None at the loop head; variant 2: it already holds a value of the kind the body assigns
+    out = loop_with_optionals(ex, st, p0.fork(), it, module, is_for, inv, target, ordinal, opt2)
+    p2 = p0.fork()
+    v = w.sample
+    if isinstance(v, VArr):
+      s_ = w.sample_path.store[v.loc]
+      p2.env[w.name] = p2.new_loc(s_.replace(term=fresh(w.name, T), base=None))
+    else:
+      p2.env[w.name] = havoc_value(ex, p2, v, w.name)
+    out += loop_with_optionals(ex, st, p2, it, module, is_for, inv, target, ordinal, opt2)
+    return out
 
 
 def view(ex, p):
@@ -238,7 +272,7 @@ def view(ex, p):
   return V_()
 
 
-def one_loop(ex, st, p, it, module, is_for, inv, target, ordinal):
+def one_loop(ex, st, p, it, module, is_for, inv, target, ordinal, optional=frozenset()):
   names, attrs = write_set(st.body + (st.orelse if False else []))
   selfv = p.env.get('self')
   tag = '%s/loop%s@L%d' % (target, ordinal, st.lineno)
@@ -247,8 +281,12 @@ def one_loop(ex, st, p, it, module, is_for, inv, target, ordinal):
     g = inv['inv'](view(ex, p), None)
     p.side.append(('loop-inv-init', tag, list(p.pc), g, 'value invariant holds on entry'))
   extra_locs = set()
-  for attempt in range(3):
+  widened = set()
+  for attempt in range(6):
     head = p.fork()
+    for k in widened:
+      if k in head.env and isinstance(head.env[k], VInt):
+        head.env[k] = VReal(z3.ToReal(head.env[k].t))
     head_before = {k: head.env.get(k) for k in names}
     # havoc the write set
     for k in sorted(names):
@@ -308,6 +346,16 @@ def one_loop(ex, st, p, it, module, is_for, inv, target, ordinal):
     if more:
       extra_locs |= more
       continue
+    try:
+      for q in ends:
+        for k in names:
+          if k in head_env and k in q.env and not (k in optional and isinstance(head_env[k], VNone)):
+            same_type(ex, q, head_env[k], q.env[k], k, st)
+    except Widen as w:
+      if w.name in widened:
+        raise Unsupported('loop line %d: variable %s keeps changing numeric type' % (st.lineno, w.name))
+      widened.add(w.name)
+      continue
     break
   else:
     raise Unsupported('loop write set did not stabilise (line %d)' % st.lineno)
@@ -315,7 +363,7 @@ def one_loop(ex, st, p, it, module, is_for, inv, target, ordinal):
   for q in ends:
     conds = []
     for k in names:
-      if k in head_env and k in q.env:
+      if k in head_env and k in q.env and not (k in optional and isinstance(head_env[k], VNone)):
         conds += same_type(ex, q, head_env[k], q.env[k], k, st)
     if isinstance(selfv, VObj):
       for a in attrs:
